@@ -33,6 +33,10 @@ Variable O : Orc.
 Hypothesis digest_inj : forall t1 t2 n, o_digest O t1 n = o_digest O t2 n -> t1 = t2.
 Hypothesis digest_len : forall t1 t2 n, List.length (o_digest O t1 n) = List.length (o_digest O t2 n).
 Hypothesis ssl_inj : forall t1 t2 m l, o_digestSSL O t1 m l = o_digestSSL O t2 m l -> t1 = t2.
+(* since /repo 14857e8 an SSLv3 DSA CertificateVerify covers only the sha_hash = bytes 16.. of digestSSL
+   (RFC 6101 5.6.8): that part alone must be collision free too *)
+Hypothesis ssl_sha_inj : forall t1 t2 m l,
+  py_slice (o_digestSSL O t1 m l) (Some 16) None = py_slice (o_digestSSL O t2 m l) (Some 16) None -> t1 = t2.
 Hypothesis hash_inj : forall a b n, o_hash O a n = o_hash O b n -> a = b.
 Hypothesis pkcs1_inj : forall a b n, o_pkcs1 O a n = o_pkcs1 O b n -> a = b.
 
@@ -68,8 +72,10 @@ Lemma verify_bytes_binds ver t1 t2 sa pm cr sr prf tag1 tag2 kt b :
 Proof.
   intros L H1 H2. unfold verify_bytes, calcVerifyBytes in H1, H2.
   destruct (pairZ_eqb ver (3, 0)) eqn:V0.
-  { injection H1 as H1. injection H2 as H2. subst b. apply ssl_inj in H2. split; [symmetry; exact H2|].
-    intros X. subst ver. discriminate V0. }
+  { assert (ver <> (3, 4)) as NV by (intros X; subst ver; discriminate V0).
+    split_ifs; rewrite <- H2 in H1; clear H2; apply Ok_inj in H1;
+      first [apply ssl_sha_inj in H1 | apply ssl_inj in H1];
+      (split; [exact H1|intros X; contradiction]). }
   destruct (existsb (pairZ_eqb ver) [(3, 1); (3, 2)]) eqn:V1.
   { assert (ver <> (3, 4)) as NV by (intros X; subst ver; discriminate V1).
     split_ifs; injection H1 as H1; injection H2 as H2; subst b; apply digest_inj in H2;
@@ -87,12 +93,32 @@ Proof.
 Qed.
 End IdealHash.
 
-(* the hypothesis set is satisfiable: transcripts of one fixed length with the identity as
-   "hash" (toy instance) *)
+Lemma py_slice_drop16 (t : list Z) : py_slice (repeat 0 16 ++ t) (Some 16) None = t.
+Proof.
+  unfold py_slice, clamp_bound, zlen. rewrite app_length, repeat_length.
+  change (16 <? 0) with false. cbv iota.
+  destruct (Z.of_nat (16 + List.length t) <? 16) eqn:B; [apply Z.ltb_lt in B; lia|].
+  try (change (16 <? 0) with false; cbv iota).
+  destruct (Z.of_nat (16 + List.length t) <=? 16) eqn:C.
+  - apply Z.leb_le in C. destruct t; [reflexivity|cbn [List.length] in C; lia].
+  - replace (Z.to_nat 16) with 16%nat by reflexivity.
+    cbn [repeat app skipn].
+    replace (Z.to_nat (Z.of_nat (16 + List.length t) - 16)) with (List.length t) by lia.
+    apply firstn_all.
+Qed.
+
+(* the hypothesis set is satisfiable: the identity as "hash", digestSSL = 16 fixed bytes then the transcript
+   (toy instance) *)
 Lemma ideal_hash_instance :
   let O := orc_const true in
   (forall t1 t2 n, o_digest O t1 n = o_digest O t2 n -> t1 = t2) /\
   (forall t1 t2 m l, o_digestSSL O t1 m l = o_digestSSL O t2 m l -> t1 = t2) /\
+  (forall t1 t2 m l, py_slice (o_digestSSL O t1 m l) (Some 16) None = py_slice (o_digestSSL O t2 m l) (Some 16) None -> t1 = t2) /\
   (forall a b n, o_hash O a n = o_hash O b n -> a = b) /\
   (forall a b n, o_pkcs1 O a n = o_pkcs1 O b n -> a = b).
-Proof. cbn. repeat split; intros; assumption. Qed.
+Proof.
+  unfold orc_const. cbn [o_digest o_digestSSL o_hash o_pkcs1].
+  split; [intros; assumption|]. split; [intros t1 t2 _ _ H; apply app_inv_head in H; exact H|].
+  split; [intros t1 t2 _ _ H; rewrite !py_slice_drop16 in H; exact H|].
+  split; intros; assumption.
+Qed.
